@@ -690,3 +690,21 @@ Proof.
     assert (x / 16 < 16) by (apply N.div_lt_upper_bound; lia).
     destruct (x / 16 <? 10) eqn:E1; destruct (x mod 16 <? 10) eqn:E2; lia.
 Qed.
+
+(** ... and its decoder inverts it (on every list, bytes or not) *)
+Lemma hexval_u_HEXU d : hexval_u (HEXU d) = d.
+Proof. unfold hexval_u, HEXU. destruct (d <? 10) eqn:E; [replace (48 + d <? 58) with true by lia|replace (55 + d <? 58) with false by lia]; lia. Qed.
+
+Lemma qp_dec_simple_byte x s : qp_dec_simple (qp_byte x ++ s) = x :: qp_dec_simple s.
+Proof.
+  unfold qp_byte. destruct ((33 <=? x) && (x <=? 126) && negb (x =? 61) && negb (x =? 46)) eqn:E.
+  - cbn [app qp_dec_simple]. replace (x =? 61) with false by lia. reflexivity.
+  - cbn [app qp_dec_simple N.eqb Pos.eqb]. rewrite !hexval_u_HEXU. f_equal.
+    pose proof (N.div_mod x 16). lia.
+Qed.
+
+Theorem qp_simple_roundtrip b : qp_dec_simple (qp_simple b) = b.
+Proof.
+  unfold qp_simple. induction b as [|x b IH]; [reflexivity|].
+  cbn [flat_map]. rewrite qp_dec_simple_byte, IH. reflexivity.
+Qed.
